@@ -1281,6 +1281,55 @@ def case_hist_inversion(ctx, mask_id, w_tilde, k, op0=None, full=False):
     _hist_case(ctx, "inversion", inputs, {"mask_id": mask_id, "w_tilde": w_tilde, "full": full}, k, op0, tol=1e-9)
 
 
+# ---------------------------------------------------------------------------------------------------- level: triangulation meshes
+def _mesh_points(n):
+    """concrete, slightly perturbed n x n lattice of (y,x) vertices: interior Voronoi cells are bounded, edge cells are
+    unbounded (area marker -1); scipy.spatial.Voronoi / Delaunay run natively on it"""
+    r = range(-(n // 2), n - n // 2)
+    return np.array([[y + 0.125 * ((3 * x + y) % 4), x + 0.0625 * ((x + 2 * y) % 3)] for y in r for x in r], dtype=float)
+
+
+def level_mesh(inp, cls, n, full=False):
+    import autoarray as aa
+    klass = aa.Mesh2DVoronoi if cls == "Voronoi" else aa.Mesh2DDelaunay
+    pts = _mesh_points(n)
+
+    def build():
+        src = pts.copy()
+        return {"src": src, "x": _mk(klass, values=src), "d": None}
+
+    reads = [("voronoi_pixel_areas", lambda o: o.voronoi_pixel_areas),
+             ("voronoi_pixel_areas_for_split", lambda o: o.voronoi_pixel_areas_for_split),
+             ("split_cross", lambda o: o.split_cross)]
+    if cls == "Voronoi":
+        reads += [("areas_for_magnification", lambda o: o.areas_for_magnification)]
+    if full:
+        reads += [("edge_pixel_list", lambda o: o.edge_pixel_list), ("neighbors", lambda o: o.neighbors),
+                  ("delaunay.simplices", lambda o: o.delaunay.simplices), ("voronoi.vertices", lambda o: o.voronoi.vertices)]
+    ops = [("noop", "read", lambda G: None)]
+    for who in ("x", "d"):
+        ops += [("%s.%s" % (who, nm), "read", _rd(who, f)) for nm, f in reads]
+    ops += [("d=x.copy()", "derive", _setd(lambda G: G["x"].copy())),
+            ("d=x*2", "derive", _setd(lambda G: G["x"] * 2.0)),
+            ("d=d*2", "derive", _setd(lambda G: G["d"] * 2.0))]
+    obs = [("src", lambda G: G["src"])]
+    for who in ("x", "d"):
+        obs += [("%s" % who, lambda G, who=who: _val(_get(G, who)))]
+        obs += [("%s.%s" % (who, nm), lambda G, who=who, f=f: f(_get(G, who))) for nm, f in reads[:4]]
+        if full:
+            obs += [("%s.edge_pixel_list" % who, lambda G, who=who: list(_get(G, who).edge_pixel_list))]
+    return build, ops, obs
+
+
+LEVELS["mesh"] = level_mesh
+
+
+def case_hist_mesh(ctx, cls, n, k, op0=None, full=False):
+    # the vertex set is concrete (qhull is a library boundary): what the solver explores here is the history itself -
+    # the operation and observation indices are symbolic integers
+    _hist_case(ctx, "mesh", {}, {"cls": cls, "n": n, "full": full}, k, op0, tol=1e-9)
+
+
 # =====================================================================================================================
 # Part C - seeded simulation does not depend on the prior state of the global random generator
 # =====================================================================================================================
@@ -1538,7 +1587,7 @@ def case_rng(ctx, H, W):
     hx.run_body(ctx, body_rng, inputs, {"H": H, "W": W}, validate_every=1, tol=None)
 
 
-BODIES = {"case_ctor_struct": body_ctor_struct, "case_ctor_graph": body_ctor_graph, "case_hist_vis": body_hist, "case_hist_array": body_hist, "case_hist_grid": body_hist, "case_hist_mask": body_hist, "case_hist_imaging": body_hist, "case_hist_inversion": body_hist, "case_rng": body_rng}
+BODIES = {"case_ctor_struct": body_ctor_struct, "case_ctor_graph": body_ctor_graph, "case_hist_vis": body_hist, "case_hist_array": body_hist, "case_hist_grid": body_hist, "case_hist_mask": body_hist, "case_hist_imaging": body_hist, "case_hist_inversion": body_hist, "case_hist_mesh": body_hist, "case_rng": body_rng}
 
 
 def _dummy_inputs(level, kw):
@@ -1547,6 +1596,8 @@ def _dummy_inputs(level, kw):
         return {"re": np.ones(kw["n"]), "im": np.ones(kw["n"]), "c": 2.0, "w": [1.0, 1.0]}
     if level == "mask":
         return {"mask": np.zeros((kw["H"], kw["W"]), dtype=bool), "ps": 1.0}
+    if level == "mesh":
+        return {}
     H, W = _mask_arr(kw["mask_id"]).shape
     if level == "array":
         return {"v": np.ones((H, W)), "c": 2.0}
